@@ -26,6 +26,7 @@ type Verdict struct {
 	Detail  string
 	Oblig   *Oblig
 	FuncKey string
+	AltText string // full query tried when the reduced one is not unsat
 }
 
 type solverSpec struct {
@@ -52,7 +53,15 @@ func runSolver(name, file string, secs int) (string, string, float64) {
 	_ = cmd.Run()
 	el := time.Since(t0).Seconds()
 	text := out.String()
-	first := strings.TrimSpace(strings.SplitN(text, "\n", 2)[0])
+	first := ""
+	for _, ln := range strings.Split(text, "\n") {
+		ln = strings.TrimSpace(ln)
+		if ln == "" || strings.HasPrefix(ln, "WARNING") || strings.HasPrefix(ln, "(warning") {
+			continue
+		}
+		first = ln
+		break
+	}
 	switch {
 	case first == "unsat" || first == "sat" || first == "unknown":
 	case strings.Contains(first, "timeout") || ctx.Err() != nil:
@@ -95,6 +104,17 @@ func solveAll(cfg solveCfg, items []*Verdict, texts []string) {
 			v := items[i]
 			v.File = writeQuery(cfg.workDir, v.Name, texts[i])
 			v.Size = len(texts[i])
+			if v.AltText != "" {
+				a, _, el := runSolver("z3-new", v.File, cfg.quickT)
+				if a == "unsat" {
+					v.Answer, v.Solver, v.Secs, v.Status = "unsat", "z3-new", el, "discharged"
+					v.Detail = "proved without quantified assumptions"
+					return
+				}
+				v.Secs += el
+				v.File = writeQuery(cfg.workDir, v.Name+".full", v.AltText)
+				v.Size = len(v.AltText)
+			}
 			decide(cfg, v)
 		}(i)
 	}
